@@ -47,6 +47,16 @@ Theorem C10_tftp_server_address_tuple : forall ntop h p f s anc c,
 Proof. exact tftp_server_address4. Qed.
 Print Assumptions C10_tftp_server_address_tuple.
 
+(* The model has no textual "is this the wildcard address" test at all: for EVERY host the bound socket reports
+   (every spelling of the wildcard - "::", "::0", "0::", "0:0:0:0:0:0:0:0" all bind the all-zero 128-bit address -
+   or a specific address) the handler's server address is the arrival address of the packet-info message *)
+Theorem C10_tftp_server_address_any_bind : forall ntop h1 h2 tail anc c,
+  last_match anc = Some c ->
+  recover_dst ntop 1 true (h1 :: tail) anc = FS (ntop (firstn 16 (cm_data c))) :: tail /\
+  recover_dst ntop 1 true (h1 :: tail) anc = recover_dst ntop 1 true (h2 :: tail) anc.
+Proof. exact tftp_server_address_any_bind. Qed.
+Print Assumptions C10_tftp_server_address_any_bind.
+
 (* every call of handle made for a TFTP request carries: the filename as decoded from the packet,
    the context its own prepare_context returned for that filename, the client address, the
    recovered server address; and it goes to the first accepting handler *)
